@@ -420,6 +420,14 @@ impl<'g> Cx<'g> {
                 stmts.push(Stmt::Bind(t.clone(), Doc::atom(format!("RustSem.{} {} {} {} {}", f, w, l, r, site))));
                 Ok((t, Ty::Int(w)))
             }
+            Add(_) | Sub(_) if matches!((&lt, &rt), (Ty::Dur, Ty::Dur)) => {
+                // `Duration + Duration` / `Duration - Duration` panic on overflow / underflow
+                let f = if matches!(op, Add(_)) { "add" } else { "sub" };
+                let t = self.fresh();
+                let site = self.site(whole);
+                stmts.push(Stmt::Bind(t.clone(), Doc::atom(format!("RustSem.Duration.{} {} {} {}", f, l, r, site))));
+                Ok((t, Ty::Dur))
+            }
             Add(_) | Sub(_) | Mul(_) | Div(_) | Rem(_) | BitAnd(_) | BitOr(_) | BitXor(_) => {
                 if matches!((&lt, &rt), (Ty::Bool, Ty::Bool)) {
                     let f = match op {
@@ -479,6 +487,7 @@ impl<'g> Cx<'g> {
             (Ty::Int(x), Ty::Int(y)) => x == y,
             (Ty::Bool, Ty::Bool) | (Ty::Unit, Ty::Unit) | (Ty::Dur, Ty::Dur) => true,
             (Ty::List(x, _), Ty::List(y, _)) | (Ty::Opt(x), Ty::Opt(y)) => Self::same_shape(x, y),
+            (Ty::Map(a, b, _), Ty::Map(c, d, _)) => Self::same_shape(a, c) && Self::same_shape(b, d),
             (Ty::Tuple(x), Ty::Tuple(y)) => x.len() == y.len() && x.iter().zip(y.iter()).all(|(p, q)| Self::same_shape(p, q)),
             (Ty::Named(x), Ty::Named(y)) | (Ty::Opaque(x), Ty::Opaque(y)) => x == y,
             _ => false,
@@ -816,7 +825,7 @@ impl<'g> Cx<'g> {
         }
         let applied = format!("{}{}", self.fn_lean_name(&info), args);
         let (caller, ok_ty) = match (&info.ret, try_mode) {
-            (Ty::Res(a, b), true) => (self.try_caller(b, m.span())?, (**a).clone()),
+            (Ty::Res(a, b), true) => (self.try_caller(b, info.err_state, std::slice::from_ref(&pl), m.span())?, (**a).clone()),
             (Ty::Res(_, _), false) => return self.bail(m.span(), "a `Result` fn can only be called with `?` or in return position"),
             (_, true) => return self.bail(m.span(), "`?` on a call that does not return `Result`"),
             (t, false) => ("Exec.call".to_string(), t.clone()),
@@ -849,7 +858,7 @@ impl<'g> Cx<'g> {
             return self.bail(m.span(), "a `Result` fn can only be called with `?` or in return position");
         }
         let io_err = Ty::Opaque("RustSem.IoError".into());
-        let caller = self.try_caller(&io_err, m.span())?;
+        let caller = self.try_caller(&io_err, true, std::slice::from_ref(&pl), m.span())?;
         let dst = match &m.args[0] {
             syn::Expr::Reference(r) if r.mutability.is_some() => &*r.expr,
             other => return self.bail(other.span(), "`read_exact` needs a `&mut` destination"),
@@ -910,31 +919,57 @@ impl<'g> Cx<'g> {
         Ok(Some(("()".into(), Ty::Unit)))
     }
 
-    /// the `Exec` combinator for `callee(..)?` given the callee's error type
-    fn try_caller(&self, callee_err: &Ty, span: proc_macro2::Span) -> R<String> {
+    /// the `Exec` combinator for `callee(..)?`: converts the error (`From`), and — when the caller has `&mut` state —
+    /// pairs it with the caller's current state, in which the places handed to the callee are replaced by the state
+    /// the callee's `Err` reports for them
+    fn try_caller(&self, callee_err: &Ty, callee_err_state: bool, places: &[Place], span: proc_macro2::Span) -> R<String> {
         let my_err = match &self.err {
             Some(e) => e.clone(),
             None => return self.bail(span, "`?` in a function that does not return `Result`"),
         };
-        if format!("{:?}", callee_err) == format!("{:?}", my_err) {
+        let conv: Option<String> = if format!("{:?}", callee_err) == format!("{:?}", my_err) {
+            None
+        } else {
+            let (src, dst) = match (callee_err, &my_err) {
+                (Ty::Named(a), Ty::Named(b)) => (a.clone(), b.clone()),
+                (Ty::Opaque(a), Ty::Named(b)) => (a.rsplit('.').next().unwrap_or(a).to_string(), b.clone()),
+                _ => return self.bail(span, "`?` with an error conversion between these types is not supported"),
+            };
+            match self.g.from_impls.iter().find(|(s, d, _)| *s == src && *d == dst) {
+                Some((_, _, key)) => {
+                    let v = self.g.fns.get(key).unwrap();
+                    let f = &v[0];
+                    if f.order >= self.order {
+                        return self.bail(span, "the `From` impl used by `?` must be emitted before its use: fix the manifest order");
+                    }
+                    Some(self.fn_lean_name(f))
+                }
+                None => return self.bail(span, format!("`?` needs `impl From<{}> for {}`, which is not a selected item", src, dst)),
+            }
+        };
+        let my_state = self.err_state;
+        if conv.is_none() && !callee_err_state && !my_state {
             return Ok("Exec.call".to_string());
         }
-        let (src, dst) = match (callee_err, &my_err) {
-            (Ty::Named(a), Ty::Named(b)) => (a.clone(), b.clone()),
-            (Ty::Opaque(a), Ty::Named(b)) => (a.rsplit('.').next().unwrap_or(a).to_string(), b.clone()),
-            _ => return self.bail(span, "`?` with an error conversion between these types is not supported"),
-        };
-        match self.g.from_impls.iter().find(|(s, d, _)| *s == src && *d == dst) {
-            Some((_, _, key)) => {
-                let v = self.g.fns.get(key).unwrap();
-                let f = &v[0];
-                if f.order >= self.order {
-                    return self.bail(span, "the `From` impl used by `?` must be emitted before its use: fix the manifest order");
+        let e_term = if callee_err_state { "err.1" } else { "err" };
+        // caller state after the failed call
+        let mut roots: std::collections::BTreeMap<String, String> = std::collections::BTreeMap::new();
+        if callee_err_state && my_state {
+            let total = places.len();
+            for (i, pl) in places.iter().enumerate() {
+                let comp = if total == 1 { "err.2".to_string() } else { Self::tuple_proj("err.2", i, total) };
+                if !self.pure_update(pl, comp, &mut roots) {
+                    return self.bail(span, "`?` on a call whose `&mut` argument is an element of an indexed element is not supported");
                 }
-                Ok(format!("Exec.callFrom {}", self.fn_lean_name(f)))
             }
-            None => self.bail(span, format!("`?` needs `impl From<{}> for {}`, which is not a selected item", src, dst)),
         }
+        let body = match (&conv, my_state) {
+            (None, false) => format!("Res.ok {}", e_term),
+            (Some(c), false) => format!("{} {}", c, e_term),
+            (None, true) => format!("Res.ok ({}, {})", e_term, self.state_tuple(&roots)),
+            (Some(c), true) => format!("Res.bind ({} {}) (fun e' => Res.ok (e', {}))", c, e_term, self.state_tuple(&roots)),
+        };
+        Ok(format!("Exec.callFrom (fun err => {})", body))
     }
 
     /// bind the result of a call of a translated non-`Result` fn
@@ -982,7 +1017,7 @@ impl<'g> Cx<'g> {
         if info.self_mode == SelfMode::Mut {
             return self.bail(span, "`&mut self` method called on something that is not a place");
         }
-        let caller = self.try_caller(&er, span)?;
+        let caller = self.try_caller(&er, info.err_state, &places, span)?;
         let v = self.finish_call(&caller, &term, &info, &places, &ok, stmts)?;
         Ok((v, ok))
     }
@@ -1042,6 +1077,21 @@ impl<'g> Cx<'g> {
                 }
             }
             return Ok(("RustSem.IoError.opaque".into(), Ty::Opaque("RustSem.IoError".into())));
+        }
+        if segs.len() == 2 && segs[0] == "Duration" && (last == "from_secs" || last == "from_millis") && args.len() == 1 {
+            // `u64` seconds / milliseconds always fit a Duration
+            let (t, ty) = self.expr(args[0], Some(&Ty::Int(64)), stmts)?;
+            if !ty.is_int() {
+                return self.bail(whole.span(), "Duration::from_* needs an integer");
+            }
+            return Ok((format!("(RustSem.Duration.{} {})", last, t), Ty::Dur));
+        }
+        if segs.len() == 2 && (segs[0] == "BTreeMap" || segs[0] == "HashMap") && last == "new" && args.is_empty() {
+            let t = match exp {
+                Some(t @ Ty::Map(_, _, _)) => t.clone(),
+                _ => Ty::Map(Box::new(Ty::Int(64)), Box::new(Ty::Unknown), segs[0] == "HashMap"),
+            };
+            return Ok(("[]".into(), t));
         }
         if segs.len() == 2 && segs[0] == "i32" && last == "from_le_bytes" && args.len() == 1 {
             let (t, ty) = self.expr(args[0], None, stmts)?;
@@ -1117,6 +1167,23 @@ impl<'g> Cx<'g> {
 
     fn method_call(&mut self, m: &syn::ExprMethodCall, exp: Option<&Ty>, whole: &syn::Expr, stmts: &mut Vec<Stmt>) -> R<(String, Ty)> {
         let name = m.method.to_string();
+        // `map.remove(&k)` used as a value: the old binding, the place keeps the map without it
+        if name == "remove" && m.args.len() == 1 && self.is_place(&m.receiver) {
+            let mut probe: Vec<Stmt> = Vec::new();
+            let saved = self.tmp_mark();
+            if let Ok(pl) = self.place(&m.receiver, &mut probe) {
+                if let Ty::Map(kt, vt, _) = pl.ty() {
+                    stmts.extend(probe);
+                    let (k, _) = self.expr(&m.args[0], Some(&kt), stmts)?;
+                    let cur = self.read(&pl, stmts)?;
+                    let t = self.fresh();
+                    stmts.push(Stmt::Let(t.clone(), format!("(RustSem.Map.find? {} {})", cur, k)));
+                    self.write(&pl, format!("(RustSem.Map.remove {} {})", cur, k), stmts)?;
+                    return Ok((t, Ty::Opt(vt)));
+                }
+            }
+            self.tmp_reset(saved);
+        }
         if super::analysis::MUTATING_METHODS.contains(&name.as_str()) {
             return self.bail(whole.span(), format!("`{}` is only supported as a statement on a place", name));
         }
@@ -1271,6 +1338,31 @@ impl<'g> Cx<'g> {
             (Ty::Int(w), "leading_zeros" | "trailing_zeros", 0) => Ok((format!("(RustSem.{} {} {})", name, w, r), Ty::Int(32))),
             (Ty::Opt(_), "is_some", 0) => Ok((format!("(Option.isSome {})", r), Ty::Bool)),
             (Ty::Opt(_), "is_none", 0) => Ok((format!("(Option.isNone {})", r), Ty::Bool)),
+            (Ty::Map(kt, _, _), "contains_key", 1) => {
+                let (k, _) = self.expr(args[0], Some(kt), stmts)?;
+                Ok((format!("(RustSem.Map.contains_key {} {})", r, k), Ty::Bool))
+            }
+            (Ty::Map(kt, vt, _), "get", 1) => {
+                let (k, _) = self.expr(args[0], Some(kt), stmts)?;
+                Ok((format!("(RustSem.Map.find? {} {})", r, k), Ty::Opt(vt.clone())))
+            }
+            (Ty::Map(_, _, _), "len", 0) => Ok((format!("(RustSem.len {})", r), Ty::usize())),
+            (Ty::Map(_, _, _), "is_empty", 0) => Ok((format!("(RustSem.is_empty {})", r), Ty::Bool)),
+            (Ty::Map(kt, vt, hash), "iter", 0) => {
+                if *hash {
+                    return self.bail(whole.span(), "iteration over a `HashMap` is rejected: the model is key-sorted and the iteration order of a HashMap is unspecified");
+                }
+                Ok((r, Ty::List(Box::new(Ty::Tuple(vec![(**kt).clone(), (**vt).clone()])), ListKind::Iter)))
+            }
+            (Ty::Opt(t), "expect", 1) => {
+                if !matches!(args[0], syn::Expr::Lit(_)) {
+                    return self.bail(whole.span(), "`expect` needs a literal message");
+                }
+                let v = self.fresh();
+                let site = self.site(whole);
+                stmts.push(Stmt::Bind(v.clone(), Doc::atom(format!("RustSem.unwrap {} {}", r, site))));
+                Ok((v, (**t).clone()))
+            }
             (Ty::Opt(t), "unwrap", 0) => {
                 let v = self.fresh();
                 let site = self.site(whole);
